@@ -180,6 +180,7 @@ UNITS.update({
     "U-BATCHINV": {
         "backend": "verus",
         "template": "contracts/batchinv.vc",
+        "search": "search-batchinv",
         "trusted": ["Verus 0.2026.09.13 / Z3; vstd",
                     "Felt operators, zero/one/is_zero (U-FELT); inverse_or_zero and the existence of inverses in Z_q (finv_facts: discharged by Kani over all residues in U-FELT-INV)",
                     "operator-assign on Felt equals the operator (U-FELT)"],
